@@ -59,6 +59,17 @@ INLINE = [
 ]
 
 
+# shapes that once broke the round trip (kept so that the defects stay fixed)
+INLINE.append("def outer():\n" + "".join("    v%d = %d\n" % (i, i) for i in range(256))
+              + "    def inner(x):\n        g = lambda: x\n        for i in range(3):\n            if v99: x += 1\n        return ("
+              + ", ".join("v%d" % i for i in range(256)) + ", g)\n    return inner\n")
+INLINE.append("".join("v%d = %d\n" % (i, i + 1000) for i in range(200)) + "while True:\n    pass\n")
+INLINE.append("def f():\n return 1\n" + "\n" * 125 + " [\n  x\n ]\n")
+INLINE.append("def f(a, *args, b, **kw):\n    return a\n")
+INLINE.append("def f(x):\n    try:\n        pass\n    finally:\n        h = lambda: x\n    return h\n")
+INLINE.append("x = 1\n" + "\n" * 300 + "y = 2\n" + "z = (\n" + "\n" * 200 + "1,\n x)\n")
+
+
 def code_objects(tier, rng=None, limit=None, max_code=None):
     """yields (origin, code) for every code object (nested included)"""
     seen = 0
